@@ -190,7 +190,7 @@ def run(tier, seed):
             n = 0
             if dres == 'doc':
                 real = apel.real_decode(data)
-                n = len(real[4])
+                n = len(real[4]) if real[0] == 'doc' and len(real) > 4 else 0      # (a log the code under test no longer decodes: the traces below will differ from the model's)
             steps = [None, 0, 1, max(1, n // 2), n, n + 1, n + 2] if dres == 'doc' else [None, 0]
             if thorough and dres == 'doc' and n < 3000:
                 steps += list(range(2, n, max(1, n // 40)))
